@@ -379,6 +379,9 @@ class Translator:
             e = self.ex(v)                                                 # a chain `a.b.c`: every link must be declared in the spec
             if isinstance(e.ty, tuple) and e.ty[0] == "Rec":
                 return e.ty[1], e.code
+            if is_opt(e.ty) and isinstance(e.ty[1], tuple) and e.ty[1][0] == "Rec":
+                self.raising = True                                        # `None.attr`: AttributeError
+                return e.ty[1][1], f"(← Py.unwrapAttr {e.code})"
         return None, None
 
     def ex_Dict(self, n):
@@ -562,6 +565,15 @@ class Translator:
                 raise Unsupported(n, "comparison of a bool with a non-bool")
             t = join(a.ty, b.ty, n)                                        # None == 0 is simply False: compare at the joined type
             base = strip_opt(t)
+            if self.pure is not None and isinstance(base, tuple) and base[0] == "Rec" and base[1] in self.pure.eq:
+                # `==` of a record type for which the spec names Python's `__eq__` (e.g. numbers compare across int / float);
+                # `None == None` is True, a value never equals None (`Py.optEq`)
+                f = self.pure.eq[base[1]]
+                if not is_opt(t):
+                    c = f.format(a.code, b.code)
+                else:
+                    c = f"(Py.optEq (fun x y => {f.format('x', 'y')}) ({self.coerce(a, t, n)}) ({self.coerce(b, t, n)}))"
+                return E(c if op == "Eq" else f"(¬ {c})", BOOL)
             if base == PYSTR:
                 pass                                                       # a Python `str` kept as a Lean `String`: equality by value
             elif isinstance(base, tuple) and base[0] == "Rec":
@@ -1659,6 +1671,7 @@ class PureSpec:
     # records that stand for a Python dict: (record, int literal | NAT) -> {"contains": template, "getitem": (template, type, raises?)};
     # `{obj}` = the record, `{0}` = the key (typed entries only)
     keyed: dict = field(default_factory=dict)
+    eq: dict = field(default_factory=dict)         # record -> template of Python's `==` on it (`{0}`, `{1}`: Bool-valued Lean term)
     enums: dict = field(default_factory=dict)      # plain `Enum` class -> (Lean inductive type, {member -> constructor}); ALL members
     open_ns: str = ""                              # further namespaces opened in the generated file
     prelude: list = field(default_factory=list)    # hand-written Lean lines emitted before the function (glue named by templates)
@@ -1712,6 +1725,8 @@ def translate_pure_function(src: str, func: str, spec: PureSpec, namespace: str,
         o.append(f"      {rec}.{at} ↔ {tpl.format('·') or at} : {lean_ty(ty)}")
     for (rec, at), (tpl, ty, dflt) in spec.getattr_defaults.items():
         o.append(f"      getattr({rec}, {at!r}, {dflt}) ↔ {tpl.format('·')} : {lean_ty(ty)}   (the attribute, or {dflt} for objects without it)")
+    for rec, tpl in spec.eq.items():
+        o.append(f"      {rec} == {rec} ↔ {tpl.format('‹a›', '‹b›')} : Bool   (None == None, a value never equals None: Py.optEq)")
     for (rec, k), ent in spec.keyed.items():
         ks = str(k) if isinstance(k, int) else f"‹{lean_ty(k)}›"
         kk = "" if isinstance(k, int) else "‹k›"
@@ -2015,6 +2030,33 @@ def regenerate_odxlink_resolve(repo, verif):
     return _write(Path(verif) / "lean" / "OdxVerif" / "Gen" / "OdxLinkResolve.lean", render_odxlink_resolve(Path(repo)))
 
 
+# ---- `CompuScale.applies` (compuscale.py): the limits' `complies_to_lower/upper` are the functions translated above
+# (`Gen/CompuLimit.lean`), `Limit.value` is translated too; `==` on AtomicOdxType values is the model's `Val.pyEq`
+_VAL, _LIMIT = ("Rec", "Val"), ("Rec", "Limit")
+
+
+def render_scale_applies(repo: Path) -> str:
+    rel1, rel2 = "odxtools/compumethods/limit.py", "odxtools/compumethods/compuscale.py"
+    vspec = PureSpec(params={"self": (_LIMIT, None)}, binders="(l : Limit)", attrs={("Limit", "_value"): ("l.value", opt(_VAL))})
+    a = translate_pure_function((Path(repo) / rel1).read_text(), "value", vspec, "OdxVerif.Compu.Gen",
+                                ["OdxVerif.Gen.CompuLimit"], rel1, cls_name="Limit", lean_name="limitValue")
+    spec = PureSpec(
+        params={"self": (("Rec", "CompuScale"), None), "internal_value": (_VAL, "internal_value")},
+        binders="(s : Scale) (internal_value : Val)",
+        attrs={("CompuScale", "lower_limit"): ("s.lo", opt(_LIMIT)), ("CompuScale", "upper_limit"): ("s.hi", opt(_LIMIT)),
+               ("Limit", "value"): ("(← limitValueE {})", opt(_VAL))},
+        calls={("Limit", "complies_to_lower"): ("(← compliesToLowerE {obj} {0})", [_VAL], BOOL, True),
+               ("Limit", "complies_to_upper"): ("(← compliesToUpperE {obj} {0})", [_VAL], BOOL, True)},
+        eq={"Val": "(Val.pyEq {0} {1})"})
+    b = translate_pure_function((Path(repo) / rel2).read_text(), "applies", spec, "OdxVerif.Compu.Gen", [], rel2, cls_name="CompuScale",
+                                lean_name="scaleApplies")
+    return a + "\n" + b
+
+
+def regenerate_scale_applies(repo, verif):
+    return _write(Path(verif) / "lean" / "OdxVerif" / "Gen" / "CompuScaleApplies.lean", render_scale_applies(Path(repo)))
+
+
 def _write(out: Path, new: str):
     if not out.exists() or out.read_text() != new:
         out.write_text(new)
@@ -2039,9 +2081,9 @@ if __name__ == "__main__":
     if len(sys.argv) > 2:
         for regen in (regenerate_isotp, regenerate_staticlen, regenerate_muxkey, regenerate_limit, regenerate_inherit_prio,
                       regenerate_itemkey, regenerate_odxlink_resolve, regenerate_required,
-                      regenerate_findsvc):
+                      regenerate_findsvc, regenerate_scale_applies):
             print(regen(repo, Path(sys.argv[2])))
     else:
         for render in (render_isotp, render_staticlen, render_muxkey, render_limit, render_inherit_prio, render_itemkey, render_odxlink_resolve, render_required,
-                       render_findsvc):
+                       render_findsvc, render_scale_applies):
             sys.stdout.write(render(repo))
